@@ -268,7 +268,8 @@ def census_sentence(prop):
                              ('codes.json', 'RE', 'reviewed error sites still pass their reviewed HTTP/2 error code'),
                              ('inits.json', 'RI', 'reviewed configuration / limit fields are initialised from their reviewed source'),
                              ('predicates.json', 'RP', 'boolean functions compute the reviewed truth table over their atoms (extracted from MIR; calls / fields two-valued, comparisons lt/eq/gt, matches per arm), however they are written'),
-                             ('updates.json', 'RU', 'in-place updates of counters / ledgers / flag octets keep their operator (+= stays +=) and the source of their amount')):
+                             ('updates.json', 'RU', 'in-place updates of counters / ledgers / flag octets keep their operator (+= stays +=) and the source of their amount'),
+                             ('counts.json', 'RQ', 'effects (calls taking `&mut`, buffer writes, wakers, callbacks, field writes) still occur at least as often on an entry-to-return path as reviewed - minimum and maximum over all paths of the normalised MIR, back edges ignored (a deleted or newly conditional statement lowers one; restructuring keeps both)')):
         try:
             with open(os.path.join(base, fname)) as fh:
                 n = sum(1 for e in json.load(fh) if prop in e['props'])
